@@ -14,7 +14,7 @@ import sys
 from . import common as C
 
 PID = "C15"
-MODULES = ["c01", "c04", "c05", "c06", "c07", "c08", "c09", "c10", "c11", "c12", "c16", "c17", "c18", "c19"]
+MODULES = ["c01", "c04", "c05", "c06", "c07", "c08", "c09", "c10", "c11", "c12", "c16", "c17", "c18", "c19", "c15x"]
 
 
 def available():
@@ -69,6 +69,10 @@ def run(ctx):
                "label family is not the small-int family the test-suite already uses" % (
                    ",".join(n for n, _ in available()), nseeds))
     ev.assumptions = ["adapters validate witnesses instead of comparing them",
+                      "adapter c15x (public algorithms without a Lean model: proper_possibly_directed_path, all_vstructures, "
+                      "is_node_common_cause, set_nodes_as_latent_confounders, is_definite_noncollider, "
+                      "single_source_shortest_mixed_path) is purely metamorphic: expected = the implementation's own answer under "
+                      "the canonical naming; a TEST of the relation, no theorem behind it",
                       "hash-seed / identity behaviour is covered only by this correspondence (DESIGN.md C15)"]
     seeds = [0] + [ctx["rng"].randrange(1, 1 << 31) for _ in range(nseeds - 1)]
     # split jobs over worker processes per hash seed
@@ -102,7 +106,9 @@ def run(ctx):
         lst.sort(key=lambda t: len(json.dumps(t[0])))
         case, fam, oseed, hs, r, e = lst[0]
         out.violation({"adapter": name, "case": case, "fam": fam, "order_seed": oseed, "hashseed": hs},
-                      {"implementation": r, "expected_from_lean_model": e, "disagreements_for_adapter": len(lst),
+                      {"implementation": r,
+                       ("expected_from_canonical_naming(no Lean model)" if name == "c15x" else "expected_from_lean_model"): e,
+                       "disagreements_for_adapter": len(lst),
                        "label_families_failing": sorted(set(t[1] for t in lst))})
 
 
